@@ -199,6 +199,12 @@ theorem goasm_embedded_agrees (env : Env) (h : Nat) (f : Bytes) (cls : NameClass
     (hd : d = .rename n) : goAsmFieldName env h f cls true (some d) = d := by
   subst hd; rfl
 
+/-- **an embedded field follows its type**: every caller of the decision (the compile step, `garble map`, the
+go_asm.h table) names an embedded field exactly like the type it embeds — by construction since the decision point
+itself does the substitution (before the corresponding `fix:` commit `garble map` reported a struct-salted name) -/
+theorem embedded_field_follows_type (env : Env) (o : Obj) (T : Bytes) (cls : NameClass) (P : Pkg) :
+    decideIdent env o (.named T cls (some P.path)) = decideObj env (typeObj P T cls) := rfl
+
 /-- **-ldflags=-X agrees**: the duplicated flag names the variable's new import path and new name -/
 theorem ldflagsX_agrees (env : Env) (P : Pkg) (v : Bytes) (cls : NameClass) (n : Bytes)
     (hl : env.lookup P.path = .found P) (ho : P.toObfuscate = true) (hs : specialKeep P.path v = false)
